@@ -15,9 +15,14 @@
     snapr <file>                     -> ok <c> <height> <hash> <k> <rec>*k | err
     merge <u|c> <undo bytes> <old bytes|nil>   UndoBlockTxs for one undo record: decode both, merge, serialise
                                      -> ok <bytes> | nil | panic
+    load <UTXO.db bytes|nil> <UTXO.old bytes|nil> <cfg compressed:0|1>     NewUnspentDb with its retry (Model.UtxoLoad.loadDir
+                                     over the retry shape regenerated from the source; nil = no such file)
+                                     -> ok <c> <height> <hash> <totalTxs> <dataSize> <k> <rec>*k   (records in insertion order)
 -/
 import GocoinV.Model.UtxoRec
 import GocoinV.Model.UtxoUndo
+import GocoinV.Model.UtxoLoad
+import GocoinV.Gen.UtxoLoaderFacts
 import GocoinV.Base.Proto
 open GocoinV GocoinV.UtxoRec
 
@@ -169,6 +174,14 @@ def step (last : Bytes) (toks : List String) : Bytes × String :=
           | none => (last, "nil")
       | _, _ => (last, "panic")
     | _, _ => bad
+  | ["load", db, old, c] =>
+    let file := fun (t : String) => if t == "nil" then some none else (unhex t).map some
+    match file db, file old, bit c with
+    | some db, some old, some c =>
+      let l := loadDir Gen.UtxoLoaderFacts.retryShape db old c
+      let rs := l.snap.recs.foldl (fun acc r => acc ++ " " ++ hex r) ""
+      (last, s!"ok {Proto.boolStr l.snap.compressed} {l.snap.height} {hex l.snap.hash} {l.totalTxs} {l.dataSize} {l.snap.recs.length}{rs}")
+    | _, _, _ => bad
   | ["snapr", f] => match unhex f with
     | some f => match snapDecode f with
       | some s =>
